@@ -109,7 +109,8 @@ Definition payload_type : string := "application/vnd.cncf.notary.payload.v1+json
 Inductive eclass :=
 | EMeta | ENoCap | EDescribe | EKeyId | EKeySpec | EFormat
 | EGenSig | EKeyId2 | EChainParse | ECore | EVerify
-| EGenEnv | EEcho | EParse | ECtype | EUnmarshal | EDescChanged | EUnknownAttr | EOther.
+| EGenEnv | EEcho | EParse | ECtype | EUnmarshal | EDescChanged | EUnknownAttr | EOther
+| ENilMeta | ENilDK | ENilGS | ENilGE.   (* a command answered a nil response with a nil error *)
 
 (* what notation-core-go and the tree reader say about the bytes that were
    returned when they are not the very bytes the plugin answered with *)
@@ -251,6 +252,7 @@ Definition eclass_code (e : eclass) : N :=
   | EGenSig => 7 | EKeyId2 => 8 | EChainParse => 9 | ECore => 10 | EVerify => 11
   | EGenEnv => 12 | EEcho => 13 | EParse => 14 | ECtype => 15 | EUnmarshal => 16
   | EDescChanged => 17 | EUnknownAttr => 18 | EOther => 19
+  | ENilMeta => 20 | ENilDK => 21 | ENilGS => 22 | ENilGE => 23
   end%N.
 Definition eclass_eqb (a b : eclass) : bool := (eclass_code a =? eclass_code b)%N.
 
@@ -370,11 +372,127 @@ Definition spec_ok (i : input) (o : obs) : bool :=
   | RSig same rf => sig_justified i same rf
   end.
 
+(* ---------- a command that answers (nil, nil): a nil response with a nil error ----------
+   [input] describes the NON-nil answers of the four commands (an error comes with a nil
+   response and is handled: MErr / DKErr / GSErr / GEErr). A plugin.SignPlugin written in Go
+   may also return a nil response together with a nil error. [nils] says which commands do;
+   the answer of such a command in [input] is then not looked at. [model_n no_nils] is
+   [model]. Since fix 0b937c8 the signer checks every response it is about to read:
+     Sign / SignBlob            metadata == nil  -> error, before anything else
+     describeKey                resp == nil      -> error (getKeySpec returns it)
+     generateSignatureEnvelope  resp == nil      -> error, before the type echo check
+     pluginPrimitiveSigner.Sign resp == nil      -> error (comes back through Envelope.Sign)
+   (plugin.CLIPlugin never answers nil: it returns the address of a local response value.) *)
+Record nils := mk_nils { n_meta : bool; n_dk : bool; n_gs : bool; n_ge : bool }.
+Definition no_nils : nils := mk_nils false false false false.
+Definition any_nil (n : nils) : bool := n_meta n || n_dk n || n_gs n || n_ge n.
+
+Definition gen_signature_n (n : nils) (i : input) (k : kspec) : result * option (string * string) :=
+  if n_gs n then
+    if negb (i_mt_ok i) then (RErr EFormat, None)
+    else match encode_keyspec k, hash_of_keyspec k, alg_of_keyspec k with
+         | Some ksn, Some hn, Some _ => (RErr ENilGS, Some (ksn, hn))   (* the command was called *)
+         | _, _, _ => (RErr EOther, None)
+         end
+  else gen_signature i k.
+
+Definition gen_envelope_n (n : nils) (i : input) : result :=
+  if n_ge n then RErr ENilGE else gen_envelope i.
+
+Definition get_keyspec_n (n : nils) (i : input) : eclass + kspec :=
+  if n_dk n then inl ENilDK else get_keyspec i.
+
+Definition model_n (n : nils) (i : input) : obs :=
+  if n_meta n then mk_obs (RErr ENilMeta) None 0
+  else
+  match i_meta i with
+  | MErr => mk_obs (RErr EMeta) None 0
+  | MCaps raw env =>
+      if i_blob i then
+        match get_keyspec_n n i with
+        | inl e => mk_obs (RErr e) None 0
+        | inr k =>
+            if raw then let '(r, q) := gen_signature_n n i k in mk_obs r q (bits_of k)
+            else if env then mk_obs (gen_envelope_n n i) None (bits_of k)
+            else mk_obs (RErr ENoCap) None (bits_of k)
+        end
+      else if raw then
+        match get_keyspec_n n i with
+        | inl e => mk_obs (RErr e) None 0
+        | inr k => let '(r, q) := gen_signature_n n i k in mk_obs r q 0
+        end
+      else if env then mk_obs (gen_envelope_n n i) None 0
+      else mk_obs (RErr ENoCap) None 0
+  end.
+
+(* ---------- the signer as it was before fix 0b937c8 (kept as a named variant) ----------
+   The response of every command was dereferenced without a nil check:
+     Sign     signer/plugin.go:96   metadata.Name (argument of the Debugf call)
+     SignBlob :138 metadata.Name, AFTER getKeySpec and the descriptor generator
+     getKeySpec :154 descKeyResp.KeyID;  generateSignatureEnvelope :201 resp.SignatureEnvelopeType
+     pluginPrimitiveSigner.Sign :374 resp.KeyID (inside notation-core-go's Envelope.Sign, not recovered)
+   Refuted in C18_Audit (nil_answer_v0_refuted). *)
+Definition gen_signature_v0 (n : nils) (i : input) (k : kspec) : result * option (string * string) :=
+  if n_gs n then
+    if negb (i_mt_ok i) then (RErr EFormat, None)
+    else match encode_keyspec k, hash_of_keyspec k, alg_of_keyspec k with
+         | Some ksn, Some hn, Some _ => (RPanic, Some (ksn, hn))
+         | _, _, _ => (RErr EOther, None)
+         end
+  else gen_signature i k.
+
+Definition get_keyspec_v0 (n : nils) (i : input) : result + kspec :=
+  if n_dk n then inl RPanic
+  else match get_keyspec i with inl e => inl (RErr e) | inr k => inr k end.
+
+Definition model_n_v0 (n : nils) (i : input) : obs :=
+  if n_meta n then
+    if i_blob i then
+      match get_keyspec_v0 n i with
+      | inl r => mk_obs r None 0
+      | inr k => mk_obs RPanic None (bits_of k)
+      end
+    else mk_obs RPanic None 0
+  else
+  match i_meta i with
+  | MErr => mk_obs (RErr EMeta) None 0
+  | MCaps raw env =>
+      if i_blob i then
+        match get_keyspec_v0 n i with
+        | inl r => mk_obs r None 0
+        | inr k =>
+            if raw then let '(r, q) := gen_signature_v0 n i k in mk_obs r q (bits_of k)
+            else if env then mk_obs (if n_ge n then RPanic else gen_envelope i) None (bits_of k)
+            else mk_obs (RErr ENoCap) None (bits_of k)
+        end
+      else if raw then
+        match get_keyspec_v0 n i with
+        | inl r => mk_obs r None 0
+        | inr k => let '(r, q) := gen_signature_v0 n i k in mk_obs r q 0
+        end
+      else if env then mk_obs (if n_ge n then RPanic else gen_envelope i) None 0
+      else mk_obs (RErr ENoCap) None 0
+  end.
+
+(* the nil answers a returned signature would rest on: none may be nil *)
+Definition nil_used (n : nils) (i : input) : bool :=
+  n_meta n ||
+  match i_meta i with
+  | MErr => false
+  | MCaps raw env =>
+      if raw then n_dk n || n_gs n
+      else n_ge n || (i_blob i && n_dk n)
+  end.
+
+(* the oracle with nil answers: as [spec_ok], and a signature never rests on a nil answer *)
+Definition spec_ok_n (n : nils) (i : input) (o : obs) : bool :=
+  spec_ok i o && match o_res o with RSig _ _ => negb (nil_used n i) | _ => true end.
+
 (* ---------- cases ---------- *)
-Record case := mk_case { c_id : N; c_in : input; c_obs : obs }.
+Record case := mk_case { c_id : N; c_nils : nils; c_in : input; c_obs : obs }.
 
 Definition run (cs : list case) : list (N * N * N) :=
   run_cases c_id
-    (fun c => obs_eqb (model (c_in c)) (c_obs c))
-    (fun c => spec_ok (c_in c) (c_obs c))
+    (fun c => obs_eqb (model_n (c_nils c) (c_in c)) (c_obs c))
+    (fun c => spec_ok_n (c_nils c) (c_in c) (c_obs c))
     (fun _ => 0%N) cs.
